@@ -5,7 +5,11 @@ From CB Require Import Trie.Radix.
 From CB Require Import Trie.PrefixMap.
 From CB Require Import Trie.Locks.
 From CB Require Import Trie.Nibbles.
+From CB Require Import Trie.InstanceState.
+From CB Require Import Trie.Arena.
 Extraction "trie_model.ml" m_step m_init s_step s_init m_wf
   pm_insert pm_delete pm_no_prefix pm_iohp pm_dump pm_wf pm_set pm_count
   ms_push ms_truncate ms_extend prepend_parts st_len it_next to_stem consumed_to_stem last_to_stem
-  follow_iter iter_new stem_iter.
+  follow_iter iter_new stem_iter
+  c_step c_init
+  as_step as_init sizes cur_checkpoint.
